@@ -329,3 +329,61 @@ Theorem C05_mapor_member_sentence_per_actor (H : list (oprec (mop oop))) (s : cm
       ~ exists c ks, MRm c ks ∈ known_ops H K /\ k ∈ ks /\ dcounter d <= vget c (dactor d)).
 Proof. exact (mapor_member_iff_pa H s K k m). Qed.
 Print Assumptions C05_mapor_member_sentence_per_actor.
+
+(** ** Nesting depth 2: Map<K1, Map<K2, Orswot>> under causal op-based delivery (proofs/MapMapOrswot.v).
+    "This holds ... at every nesting depth": one level deeper the table of inner keys under every outer key
+    and the member table under every (outer, inner) key are functions of the knowledge: an inner key /
+    a member is present iff one of its learned witnesses is covered by no learned outer key remove, inner
+    key remove or nested member remove that names it. *)
+From Crdt Require Import spec.MapMapOrswotSpec proofs.MapMapOrswot proofs.MapMapOrswotCor.
+
+Theorem C05_map2_values_refine (H : list (oprec (mop (mop oop)))) :
+  m2hist_ok H ->
+  forall (s : cmap (cmap orswot)) (K : gset nat), m2reach H s K ->
+    forall k1, m2_state_inner_clocks s k1 = m2_inner_clocks (known_ops H K) k1 /\
+               forall k2, m2_state_entries s k1 k2 = m2_entries (known_ops H K) k1 k2.
+Proof. exact (map2_values_refine H). Qed.
+Print Assumptions C05_map2_values_refine.
+
+Theorem C05_map2_inner_key_sentence (H : list (oprec (mop (mop oop)))) (s : cmap (cmap orswot)) (K : gset nat) (k1 k2 : N) :
+  m2hist_ok H -> m2reach H s K ->
+  (k2 ∈ dom (m2_state_inner_clocks s k1) <->
+    exists d0 d o, MUp d0 k1 (MUp d k2 o) ∈ known_ops H K /\
+      ~ (exists c ks, MRm c ks ∈ known_ops H K /\ k1 ∈ ks /\ dcounter d <= vget c (dactor d)) /\
+      ~ (exists d1 c ks, MUp d1 k1 (MRm c ks) ∈ known_ops H K /\ k2 ∈ ks /\ dcounter d <= vget c (dactor d))).
+Proof. exact (map2_inner_key_iff H s K k1 k2). Qed.
+Print Assumptions C05_map2_inner_key_sentence.
+
+Theorem C05_map2_member_sentence (H : list (oprec (mop (mop oop)))) (s : cmap (cmap orswot)) (K : gset nat) (k1 k2 m : N) :
+  m2hist_ok H -> m2reach H s K ->
+  (m ∈ dom (m2_state_entries s k1 k2) <->
+    exists d0 d1 d ms, MUp d0 k1 (MUp d1 k2 (OAdd d ms)) ∈ known_ops H K /\ m ∈ ms /\
+      ~ (exists c ks, MRm c ks ∈ known_ops H K /\ k1 ∈ ks /\ dcounter d <= vget c (dactor d)) /\
+      ~ (exists d2 c ks, MUp d2 k1 (MRm c ks) ∈ known_ops H K /\ k2 ∈ ks /\ dcounter d <= vget c (dactor d)) /\
+      ~ (exists d2 d3 c ms', MUp d2 k1 (MUp d3 k2 (ORm c ms')) ∈ known_ops H K /\ m ∈ ms' /\
+                             dcounter d <= vget c (dactor d))).
+Proof. exact (map2_member_iff H s K k1 k2 m). Qed.
+Print Assumptions C05_map2_member_sentence.
+
+(** the decider the monitor evaluates on the implementation's Map<_,Map<_,Orswot>> states holds of every reachable model state *)
+Theorem C05_map2_valspec_ok (H : list (oprec (mop (mop oop)))) (s : cmap (cmap orswot)) (K : gset nat) :
+  m2hist_ok H -> m2reach H s K -> m2valspec_ok H K s = true.
+Proof. exact (map2_valspec_ok H s K). Qed.
+Print Assumptions C05_map2_valspec_ok.
+
+(** non-vacuity: seven API-generated ops over two actors (nested member remove, inner key remove, concurrent outer
+    key remove); two causal orders of the same knowledge give structurally different states (T3) with the same,
+    non-trivial, specified tables *)
+Theorem C05_map2_nonvacuous :
+  exists (H : list (oprec (mop (mop oop)))) (s s' : cmap (cmap orswot)) (K : gset nat),
+    m2hist_ok H /\ m2reach H s K /\ m2reach H s' K /\ length H = 7%nat /\ s <> s' /\
+    m2_state_inner_clocks s 7 = {[3 := {[1 := 3]}; 4 := {[2 := 3]}]} /\
+    m2_state_inner_clocks s' 7 = {[3 := {[1 := 3]}; 4 := {[2 := 3]}]} /\
+    m2_state_entries s 7 3 = {[14 := {[1 := 3]}]} /\
+    m2_state_entries s' 7 3 = {[14 := {[1 := 3]}]} /\
+    m2_state_entries s 7 4 = {[13 := {[2 := 3]}]} /\
+    m2_state_entries s' 7 4 = {[13 := {[2 := 3]}]} /\
+    m2_live_dots (known_ops H K) 7 3 10 = [] /\
+    m2valspec_ok H K s = true /\ m2valspec_ok H K s' = true.
+Proof. exact map2_example_closed. Qed.
+Print Assumptions C05_map2_nonvacuous.
